@@ -121,7 +121,6 @@ pub uninterp spec fn requested_passthrough_mode() -> u32;
 pub uninterp spec fn requested_passthrough_flags() -> u32;
 pub uninterp spec fn requested_passthrough_fd(which: int) -> int;
 // ---- the raw openat2(2) call (libc::syscall is variadic; R12 gives it a fixed signature)
-pub uninterp spec fn fresh_kernel_fd(fd: int) -> bool;   // returned by a successful syscall just now
 #[verifier::external_body]
 pub struct CStringK { _p: () }
 impl CStringK { pub uninterp spec fn view(&self) -> Seq<u8>; }
